@@ -115,6 +115,14 @@ func genPlan(t *rapid.T, pool *kit.Pool) cplan {
 						i++
 					}
 				}
+				// sometimes the transaction also names a scratch dataset of some client: it may not exist
+				// (yet, any more, ever) when the transaction runs - then the whole transaction is rejected
+				if rapid.IntRange(0, 3).Draw(t, "scratchPart") == 0 {
+					sd := fmt.Sprintf("s%d", rapid.IntRange(0, nc-1).Draw(t, "scratchOf"))
+					e := mk(i)
+					e.ID = id
+					parts[sd] = []*kit.Ent{e}
+				}
 				ops = append(ops, cop{K: "txn", Parts: parts, Ctx: rapid.Bool().Draw(t, "ctx")})
 			case 7:
 				ops = append(ops, cop{K: "readFeed", DS: rapid.SampledFrom(c05Datasets).Draw(t, "ds")})
@@ -172,6 +180,8 @@ func runPlan(t *rapid.T, plan cplan, pool *kit.Pool, post func(h *WHub, failf fu
 
 	var rmu sync.Mutex
 	var reads []cread
+	rejected := map[[2]int]bool{} // transactions rejected because one of their datasets did not exist
+	var createGate sync.RWMutex
 	errs := make(chan string, 1024)
 	var wg sync.WaitGroup
 	start := make(chan struct{})
@@ -186,17 +196,42 @@ func runPlan(t *rapid.T, plan cplan, pool *kit.Pool, post func(h *WHub, failf fu
 			}()
 			<-start
 			for oi, op := range ops {
+				if oi > 0 {
+					// marks "the previous operation of this goroutine has returned" in the lock trace
+					verifhook.Release(c05OpDone, "")
+				}
 				switch op.K {
 				case "batch":
 					if err := h.StoreBatch(op.DS, op.Ents, "store"); err != nil {
 						errs <- fmt.Sprintf("client %d op %d: StoreEntities: %v", ci, oi, err)
 					}
 				case "txn":
-					if err := h.Txn(op.Parts, op.Ctx); err != nil {
+					scratchTxn := hasScratchPart(op)
+					if scratchTxn {
+						createGate.RLock()
+					}
+					err := h.Txn(op.Parts, op.Ctx)
+					if scratchTxn {
+						createGate.RUnlock()
+					}
+					if err != nil {
+						if hasScratchPart(op) && strings.Contains(err.Error(), "no dataset") {
+							// a dataset of the transaction does not exist: rejected as a whole
+							rmu.Lock()
+							rejected[[2]int{ci, oi}] = true
+							rmu.Unlock()
+							continue
+						}
 						errs <- fmt.Sprintf("client %d op %d: ExecuteTransaction: %v", ci, oi, err)
 					}
 				case "mkds":
-					if _, err := h.Dsm.CreateDataset(op.DS, nil); err != nil {
+					// precondition of every write: the dataset's creation has returned (nobody can have been
+					// told that it exists before). Transactions naming a scratch dataset therefore do not
+					// overlap a CreateDataset call; they do overlap DeleteDataset calls.
+					createGate.Lock()
+					_, err := h.Dsm.CreateDataset(op.DS, nil)
+					createGate.Unlock()
+					if err != nil {
 						errs <- fmt.Sprintf("client %d op %d: CreateDataset: %v", ci, oi, err)
 					}
 				case "rmds":
@@ -253,6 +288,7 @@ func runPlan(t *rapid.T, plan cplan, pool *kit.Pool, post func(h *WHub, failf fu
 					rmu.Unlock()
 				}
 			}
+			verifhook.Release(c05OpDone, "")
 		}(ci, ops)
 	}
 	done := make(chan struct{})
@@ -265,6 +301,9 @@ func runPlan(t *rapid.T, plan cplan, pool *kit.Pool, post func(h *WHub, failf fu
 		// a wait-for cycle among goroutines blocked on mutexes is a definite deadlock (mutexes never time out)
 		tmu.Lock()
 		cyc := waitForCycle(trace)
+		if leak := leakedLocks(trace); cyc == "" && leak != "" {
+			cyc = "no cycle, but " + leak
+		}
 		tmu.Unlock()
 		if cyc != "" {
 			closed = true // the hub cannot be closed any more; leak it
@@ -278,15 +317,25 @@ func runPlan(t *rapid.T, plan cplan, pool *kit.Pool, post func(h *WHub, failf fu
 	for e := range errs {
 		failf("CONCURRENT-OP-FAILED %s", e)
 	}
+	// a lock that is still held after the operation that took it has returned blocks every later
+	// writer of that dataset for good, whether or not one happened to follow in this plan
+	tmu.Lock()
+	leak := leakedLocks(trace)
+	tmu.Unlock()
+	if leak != "" {
+		failf("LOCK-LEAKED (every later writer deadlocks): %s", leak)
+	}
 
 	// ---- final state: per dataset serial order ------------------------------------
 	overlapTxn := 0
 	pos := map[string]map[string]int{} // ds -> stamp -> position in final feed
+	feeds := map[string][]*kit.Ent{}
 	for _, ds := range c05Datasets {
 		feed, _, err := h.Feed(ds, 0, nil, false)
 		if err != nil {
 			failf("final feed: %v", err)
 		}
+		feeds[ds] = feed
 		pos[ds] = map[string]int{}
 		for i, e := range feed {
 			st := stampOf(e)
@@ -295,6 +344,9 @@ func runPlan(t *rapid.T, plan cplan, pool *kit.Pool, post func(h *WHub, failf fu
 			}
 			pos[ds][st] = i
 		}
+	}
+	for _, ds := range c05Datasets {
+		feed := feeds[ds]
 		// every acknowledged write is present, batches contiguous and in order, client order preserved
 		for ci, ops := range plan.Clients {
 			last := -1
@@ -306,6 +358,16 @@ func runPlan(t *rapid.T, plan cplan, pool *kit.Pool, post func(h *WHub, failf fu
 					es = op.Parts[ds]
 				}
 				if len(es) == 0 {
+					continue
+				}
+				if rejected[[2]int{ci, oi}] {
+					// rejected ("no dataset ..."), hence not acknowledged: the final state is the result of the
+					// acknowledged writes only, so nothing of it may be there
+					for _, e := range es {
+						if _, ok := pos[ds][stampOf(e)]; ok {
+							failf("TXN-REJECTED-BUT-APPLIED ds=%s: the transaction of client %d op %d returned an error (a dataset it names does not exist) but its version %s is in the feed", ds, ci, oi, stampOf(e))
+						}
+					}
 					continue
 				}
 				first := -1
@@ -355,8 +417,18 @@ func runPlan(t *rapid.T, plan cplan, pool *kit.Pool, post func(h *WHub, failf fu
 		heads map[string]string // dataset -> stamp of the version of id written there
 	}
 	var txns []txnRec
-	for _, ops := range plan.Clients {
-		for _, op := range ops {
+	for ci, ops := range plan.Clients {
+		for oi, op := range ops {
+			if rejected[[2]int{ci, oi}] {
+				kit.S().Class("txn-rejected-missing-dataset", 1)
+				continue
+			}
+			if op.K == "txn" && hasScratchPart(op) {
+				kit.S().Class("txn-with-scratch-dataset-accepted", 1)
+			}
+			if op.K == "batch" && isScratch(op.DS) {
+				continue
+			}
 			if op.K == "batch" {
 				g := grp{ds: op.DS}
 				for _, e := range op.Ents {
@@ -370,6 +442,9 @@ func runPlan(t *rapid.T, plan cplan, pool *kit.Pool, post func(h *WHub, failf fu
 				}
 				rec := txnRec{heads: map[string]string{}}
 				for ds, es := range op.Parts {
+					if isScratch(ds) {
+						continue // scratch datasets come and go; only a, b, c are compared
+					}
 					g := grp{ds: ds}
 					for _, e := range es {
 						g.stamps = append(g.stamps, stampOf(e))
@@ -715,4 +790,102 @@ func TestVerifProbe_F05(t *testing.T) {
 	}
 	verifhook.SetLockTracer(nil)
 	h.Close()
+}
+
+const c05OpDone = "harness-op-done"
+
+// leakedLocks: a lock some goroutine still holds when the operation during
+// which it took the lock has returned (the harness marks the end of every
+// operation in the trace). No operation of the API keeps a lock after it returned.
+func leakedLocks(trace []lockEv) string {
+	holder := map[string]int64{}
+	var out []string
+	for _, e := range trace {
+		k := e.kind + ":" + e.id
+		switch {
+		case e.kind == c05OpDone:
+			var ks []string
+			for l, g := range holder {
+				if g == e.gid {
+					ks = append(ks, l)
+				}
+			}
+			sort.Strings(ks)
+			for _, l := range ks {
+				out = append(out, fmt.Sprintf("goroutine %d still holds %s after its operation returned", e.gid, l))
+				delete(holder, l)
+			}
+		case e.ev == "acquired":
+			holder[k] = e.gid
+		case e.ev == "release":
+			if holder[k] == e.gid {
+				delete(holder, k)
+			}
+		}
+	}
+	return strings.Join(out, "; ")
+}
+
+func isScratch(ds string) bool {
+	for _, d := range c05Datasets {
+		if d == ds {
+			return false
+		}
+	}
+	return true
+}
+
+func hasScratchPart(op cop) bool {
+	for ds := range op.Parts {
+		if isScratch(ds) {
+			return true
+		}
+	}
+	return false
+}
+
+// F26 (fixed): ExecuteTransaction looked its datasets up again after the commit
+// to update the item counters. A dataset deleted while the transaction was
+// running made it return "no dataset" although everything was committed, and
+// the counters of the remaining datasets were not updated.
+func TestVerifProbe_F26(t *testing.T) {
+	defer kit.CleanupScratch()
+	h := NewWHub(kit.HubOpts{})
+	defer h.Close()
+	for _, ds := range []string{"a", "s"} {
+		if _, err := h.Dsm.CreateDataset(ds, nil); err != nil {
+			t.Fatalf("VERIF-INFRA create: %v", err)
+		}
+	}
+	verifhook.Reset()
+	defer verifhook.Reset()
+	verifhook.SetCallback("txn.afterCommit", func(hit int) {
+		if hit == 1 {
+			if err := h.Dsm.DeleteDataset("s"); err != nil {
+				t.Errorf("VERIF-INFRA delete: %v", err)
+			}
+		}
+	})
+	p := h.P[0]
+	err := h.Txn(map[string][]*kit.Ent{
+		"a": {ent(p+":e0", map[string]any{p + ":p0": "x"}, nil, false)},
+		"s": {ent(p+":e1", map[string]any{p + ":p0": "y"}, nil, false)},
+	}, false)
+	feed, _, ferr := h.Feed("a", 0, nil, false)
+	if ferr != nil {
+		t.Fatalf("feed: %v", ferr)
+	}
+	if err != nil && len(feed) > 0 {
+		t.Fatalf("F26 present: the transaction returned %q but its version is in the feed of a", err)
+	}
+	metas, _ := h.Latest("core.Dataset", nil)
+	for _, m := range metas {
+		if strings.HasSuffix(m.ID, ":a") {
+			for k, v := range m.Props {
+				if strings.HasSuffix(k, ":items") && v != float64(len(feed)) {
+					t.Fatalf("F26 present: items counter of a is %v, %d entities stored", v, len(feed))
+				}
+			}
+		}
+	}
 }
